@@ -53,7 +53,7 @@ impl Property for C16 {
         "families: (D) nominal 2D curves and consistently wound meshes with measured points built as reference point +- s*direction (both sides, corners, beyond open ends, on the surface), directed distances with optional direction; (H) histories: deviation sets built from a vector or empty then 0-40 pushes with repeated values and +-1e300; point clouds started empty / try_new with consistent or inconsistent lengths / from points / from surface points then appends, merges (half inconsistent) and index selections; tolerance tables with repeated breakpoints queried at, between, one ulp around, below and beyond the breakpoints. Oracle: exhaustive closest distance and side of the normal; plain Vec models for the aggregates. Non-trivial: (D) measured point on the inner side or nearest to a corner; (H) >=3 pushes with a tie for an extreme, or at least one rejected and one accepted mutation, or a repeated breakpoint. Distinct = distinct canonical JSON."
     }
     fn cases(t: Tier) -> u32 {
-        t.pick(600_000, 20_000_000)
+        t.pick(2_400_000, 20_000_000)
     }
     fn expected_labels() -> Vec<&'static str> {
         vec!["curve_dev", "mesh_dev", "dist2", "dist3", "devset", "cloud", "tolmap", "inner_side", "outer_side", "corner", "on_surface", "tie_extreme", "rejected_op", "accepted_op", "try_new_rejected", "below_first", "beyond_last", "repeated_breakpoint", "interval_filter"]
